@@ -10,6 +10,7 @@ a=json.load(open('/verif/build/schema.json')); b=json.load(open('/verif/tools/ba
 if json.dumps(a,sort_keys=True)!=json.dumps(b,sort_keys=True):
     print("FAIL: tools/baseline_schema.json differs from the translation of the clean tree (cp build/schema.json tools/baseline_schema.json)"); sys.exit(1)
 PY
+(cd lean && lake build Ctap Spec Gen Props driver 2>&1 | grep -E "^error" | head -5 | grep . && { echo "FAIL: lake build"; exit 1; } || true) || exit 1
 python3 tools/mkmanifest.py >/dev/null || { echo "FAIL: mkmanifest"; exit 1; }
 python3-vt - <<'PY' || exit 1
 import json,jsonschema,glob,sys
